@@ -760,3 +760,141 @@ def c09(tier):
 
 
 PROPS["C09"] = c09
+
+
+# ================================================================= C10 / C19 / C20
+
+def tls_check(pid, tier, suites, mc_cfgs, note, corrupt, extra_e2e=None):
+    t0 = time.time()
+    verdict = vlib.Verdict(pid)
+    cov = {"states": 0, "transitions": 0, "traces_validated_against_impl": 0, "samples": [],
+           "events_by_kind": {}, "model_checking": [], "repo_head": vlib.repo_head(), "exhaustive": False}
+    for spec, cfg in mc_cfgs:
+        r = vlib.tlc_mc(spec, cfg, "%s-%s" % (pid, cfg), workers=4)
+        cov["model_checking"].append({"spec": spec, "cfg": cfg, "ok": r["ok"], "generated": r["generated"],
+                                      "distinct": r["distinct"], "wall_s": r["wall_s"]})
+        cov["states"] += r["distinct"]
+        cov["transitions"] += r["generated"]
+        if not r["ok"]:
+            raise vlib.ToolError("model %s/%s violated" % (spec, cfg))
+    wd = vlib.workdir(pid)
+    try:
+        binary = vlib.build_harness("debug")
+        selftested = 0
+        for suite in suites:
+            trace = os.path.join(wd, "%s.ndjson" % suite)
+            vlib.run_harness(binary, [suite, "--out", trace, "--tier", tier, "--seed", str(vlib.seed()),
+                                      "--scratch", os.path.join(wd, "scratch")])
+            total, mism, states = vlib.tlc_validate(trace, "%s-%s" % (pid, suite), spec="TlsTrace.tla",
+                                                    cfg="TlsTrace.cfg", chunk_lines=5000, parallel=8)
+            cov["traces_validated_against_impl"] += total
+            cov["states"] += states
+            cov["transitions"] += total
+            counts, _ = vlib.count_events(trace)
+            for k, v in counts.items():
+                cov["events_by_kind"][k] = cov["events_by_kind"].get(k, 0) + v
+            cov["samples"] += vlib.sample_lines(trace, 3)
+            bad = vlib.read_lines(trace, mism)
+            for ln in mism:
+                e = bad[ln]
+                verdict.reject({"ev": e.get("ev"), "res": e.get("res")}, {"suite": suite, "line": ln, "event": vlib._shorten(e)})
+            if selftested == 0:
+                path = os.path.join(wd, "corrupt.ndjson")
+                n = 0
+                with open(trace) as f, open(path, "w") as g:
+                    for line in f:
+                        c = corrupt(json.loads(line))
+                        if c is not None and n < 20:
+                            g.write(json.dumps(c) + "\n")
+                            n += 1
+                if n:
+                    _, m2, _ = vlib.tlc_validate(path, "self-" + pid, spec="TlsTrace.tla", cfg="TlsTrace.cfg", parallel=1)
+                    if len(m2) != n:
+                        raise vlib.ToolError("binding self-test failed for %s: %d corrupted, %d rejected" % (pid, n, len(m2)))
+                    selftested = n
+        cov["binding_selftest_lines_rejected"] = selftested
+        parts = [("direct", (verdict, cov, note))]
+        if extra_e2e:
+            parts.append(("end_to_end", extra_e2e()))
+        combine.t0 = t0
+        return combine(pid, tier, parts)
+    finally:
+        vlib.cleanup(wd)
+
+
+def _corrupt_pin(e):
+    if e.get("ev") == "pin" and e.get("res") == "err" and e.get("hashes") == "own" and e.get("key") == "p256":
+        e = dict(e)
+        e["res"] = "ok"
+        return e
+    return None
+
+
+def _corrupt_ident(e):
+    if e.get("ev") == "digest":
+        e = dict(e)
+        e["text"] = e["text"][:-1] + [e["text"][-1] ^ 1]
+        return e
+    return None
+
+
+def _corrupt_cfg(e):
+    if e.get("ev") == "bind" and e.get("side") == "server":
+        e = dict(e)
+        e["v6"] = not e["v6"]
+        return e
+    return None
+
+
+def c19(tier):
+    return tls_check("C19", tier, ["ident"], [("PinningMC.tla", "PinningMC.cfg")],
+                     ["SAN lists by class (DNS, IPv4, IPv6, mixed, empty, wildcard, punycode, non-ASCII, near-miss IPv4), every builder "
+                      "variant; generated certificates parsed with x509-parser and checked against the W3C profile and against the pinning "
+                      "verifier with their own hash; certificates of three key types, chains of 0..4, keys and whole identities stored and "
+                      "loaded through PEM files byte for byte; 15+ kinds of corrupt PEM/DER; 258 structured + 1 500 random digests (20 000 in "
+                      "thorough) formatted and parsed in both formats against the TLA+ formatter; malformed digest strings",
+                      "base64/DER internals are exercised through pem, rcgen, x509-parser, rustls-pki-types, not modelled"],
+                     _corrupt_ident)
+
+
+def c20(tier):
+    return tls_check("C20", tier, ["cfg"], [("PinningMC.tla", "PinningMC.cfg")],
+                     ["every IpBindConfig preset and explicit v4/v6 address x dual-stack choice x pre-bound socket on the server builder "
+                      "(identity, custom-transport and custom-TLS paths in thorough) and every preset on the client builder: bound "
+                      "family/address read back and reachability probed over IPv4 and IPv6 loopback with real handshakes; ALPN h3 negotiated, "
+                      "a peer offering only another ALPN is refused in both roles; idle timeouts None..Duration::MAX for representability; "
+                      "idle timeout and keep-alive observed on live connections in both roles; migration on/off observed with a raw client "
+                      "that changes its UDP socket; reload_config observed with two raw clients",
+                      "reachability table written from the documentation of IpBindConfig; LocalDual over IPv4 is not decided by it"],
+                     _corrupt_cfg)
+
+
+PROPS.update({"C19": c19, "C20": c20})
+
+
+def _corrupt_c10(events):
+    ev = json.loads(json.dumps(events))
+    for e in ev:
+        if e.get("ev") == "connect_returned" and e.get("res") == "err":
+            e["res"] = "ok"
+            return ev
+    return None
+
+
+def c10(tier):
+    import scen
+
+    def e2e():
+        return e2e_check("C10", tier, scen.c10(tier, vlib.seed()), "C10Trace.tla", _corrupt_c10,
+                         ["end to end: 6 server identities (14-day P-256, 15-day, expired, not yet valid, P-384, Ed25519) x 6 client trust "
+                          "policies (own hash, own hash among others, other hash, empty set, native roots, no validation) between two real endpoints"],
+                         par=6, threads=4, defer=True)
+
+    return tls_check("C10", tier, ["pin"], [("PinningMC.tla", "PinningMC.cfg")],
+                     ["the real verifier called with an injected clock on certificates minted with exact validity bounds: now at -1/0/+1 s of both "
+                      "ends, periods 14 d -1/0/+1 s and 1 s .. 10 y, keys P-256/P-384/Ed25519, hash sets empty/own/other/many; Pinning.tla proves "
+                      "the step machine equals the four-way conjunction on the same grid"],
+                     _corrupt_pin, extra_e2e=e2e)
+
+
+PROPS["C10"] = c10
